@@ -514,8 +514,10 @@ class Check:
                                             "problem_text": [str(p)[-1500:] for p in self.problems[:2]]}))
             shutil.rmtree(self.scratch, ignore_errors=True)
             return 2 if self.problems else (1 if self.violations else 0)
-        os.makedirs(os.path.join(VERIF, "evidence"), exist_ok=True)
-        with open(os.path.join(VERIF, "evidence", f"{self.pid}.json"), "w") as f:
+        # runs against a patched copy of the library (tools/try_seed.py) must not overwrite the evidence
+        evdir = os.environ.get("VERIF_EVIDENCE_DIR") or os.path.join(VERIF, "evidence")
+        os.makedirs(evdir, exist_ok=True)
+        with open(os.path.join(evdir, f"{self.pid}.json"), "w") as f:
             json.dump(ev, f, indent=1, sort_keys=True, default=str)
         shutil.rmtree(self.scratch, ignore_errors=True)
         for line in self.known:
